@@ -20,7 +20,11 @@ enum Kind {
     Mismatch,
 }
 
-const LITS: [(&str, Kind); 18] = [
+/// Two named constants every program starts with: the most negative INTEGER and LONG, which cannot be
+/// written as literals of their own type.
+const HEAD: &str = "CONST LO% = -32768\nCONST LL& = -2147483648\n";
+
+const LITS: [(&str, Kind); 20] = [
     ("1", Kind::Num),
     ("2", Kind::Num),
     ("0", Kind::Num),
@@ -39,6 +43,8 @@ const LITS: [(&str, Kind); 18] = [
     ("32768", Kind::Num),
     (".1#", Kind::Num),
     ("-1", Kind::Num),
+    ("LO%", Kind::Num),
+    ("LL&", Kind::Num),
 ];
 
 const BINOPS: [&str; 13] = ["+", "-", "*", "/", "MOD", "AND", "OR", "<", "<=", "=", ">=", ">", "<>"];
@@ -71,7 +77,7 @@ struct Space {
 
 impl Space {
     fn new(quick: bool) -> Space {
-        if quick { Space { nlit1: 18, nlit2: 5 } } else { Space { nlit1: 18, nlit2: 9 } }
+        if quick { Space { nlit1: 20, nlit2: 5 } } else { Space { nlit1: 20, nlit2: 9 } }
     }
 
     fn total(&self, g: &str) -> u64 {
@@ -199,9 +205,9 @@ fn const_program(items: &[(usize, &Expr)], form: usize) -> String {
         body.push_str(&probes(*k, &format!("C{}", k), e.kind));
     }
     if form == 2 {
-        format!("ON ERROR GOTO Trap\nS\n{}SUB S\n{}{}END SUB\n", TRAP, decl, body)
+        format!("{}ON ERROR GOTO Trap\nS\n{}SUB S\n{}{}END SUB\n", HEAD, TRAP, decl, body)
     } else {
-        format!("ON ERROR GOTO Trap\n{}{}{}", decl, body, TRAP)
+        format!("{}ON ERROR GOTO Trap\n{}{}{}", HEAD, decl, body, TRAP)
     }
 }
 
@@ -211,9 +217,9 @@ fn inline_program(items: &[(usize, &Expr)], in_sub: bool) -> String {
         body.push_str(&probes(*k, &format!("({})", e.text), e.kind));
     }
     if in_sub {
-        format!("ON ERROR GOTO Trap\nS\n{}SUB S\n{}END SUB\n", TRAP, body)
+        format!("{}ON ERROR GOTO Trap\nS\n{}SUB S\n{}END SUB\n", HEAD, TRAP, body)
     } else {
-        format!("ON ERROR GOTO Trap\n{}{}", body, TRAP)
+        format!("{}ON ERROR GOTO Trap\n{}{}", HEAD, body, TRAP)
     }
 }
 
@@ -385,8 +391,8 @@ pub fn worker(case: &Value) -> Value {
                 Kind::Mismatch => false,
             };
             let pk = if target_is_str { Kind::Str } else { Kind::Num };
-            let a = format!("ON ERROR GOTO Trap\nCONST C{} = {}\n{}{}{}", sfx, e.text, probes(0, &format!("C{}", sfx), pk), probes(1, "C", pk), TRAP);
-            let b = format!("ON ERROR GOTO Trap\nPRINT \"#9\"\nV{} = {}\n{}{}{}", sfx, e.text, probes(0, &format!("V{}", sfx), pk), probes(1, &format!("V{}", sfx), pk), TRAP);
+            let a = format!("{}ON ERROR GOTO Trap\nCONST C{} = {}\n{}{}{}", HEAD, sfx, e.text, probes(0, &format!("C{}", sfx), pk), probes(1, "C", pk), TRAP);
+            let b = format!("{}ON ERROR GOTO Trap\nPRINT \"#9\"\nV{} = {}\n{}{}{}", HEAD, sfx, e.text, probes(0, &format!("V{}", sfx), pk), probes(1, &format!("V{}", sfx), pk), TRAP);
             let oa = run(&a);
             let ob = run(&b);
             if !compatible {
@@ -488,7 +494,7 @@ pub fn drive(tier: &str) -> i32 {
         run.capped = true;
     }
     let mut ev = Evidence::new("exploration");
-    ev.set("rule", "depth1: every literal, every unary operator on every literal and every binary operator (+ - * / MOD AND OR < <= = >= > <>) on every ordered pair of 18 literals of all five types (incl. 32767, 32768, 2147483647, 65536, 12345678.5#, empty string). depth2: every (a op1 b) op2 c, c op2 (a op1 b) and unary (a op1 b) over the first 5 (thorough 9) literals. For each expression e: PRINT (e) and typed probes ((e) / 3, (e) + 32767, (e) * 65536, LEN, + \"z\") are evaluated by the VM under an error trap; CONST c = e (plain, chained through an earlier constant, and inside a SUB) must make the same probes print the same lines; if evaluating (e) raises Overflow or Division by zero the CONST form must be rejected by the checker with that error, and ill-typed expressions must be rejected in both forms with the same error. suffix: CONST c<suffix> = e for every depth-1 expression and each of the five suffixes, referenced with and without the suffix, against v<suffix> = e (conversion to the suffix type; Overflow at the conversion must be a rejection). shadow: a global CONST X, a SUB redefining X and defining Y = X op c, against the inlined form.");
+    ev.set("rule", "depth1: every literal, every unary operator on every literal and every binary operator (+ - * / MOD AND OR < <= = >= > <>) on every ordered pair of 20 operands of all five types (literals incl. 32767, 32768, 2147483647, 65536, 12345678.5#, empty string, and two named constants LO% = -32768 and LL& = -2147483648, the values no literal of their type can denote). depth2: every (a op1 b) op2 c, c op2 (a op1 b) and unary (a op1 b) over the first 5 (thorough 9) literals. For each expression e: PRINT (e) and typed probes ((e) / 3, (e) + 32767, (e) * 65536, LEN, + \"z\") are evaluated by the VM under an error trap; CONST c = e (plain, chained through an earlier constant, and inside a SUB) must make the same probes print the same lines; if evaluating (e) raises Overflow or Division by zero the CONST form must be rejected by the checker with that error, and ill-typed expressions must be rejected in both forms with the same error. suffix: CONST c<suffix> = e for every depth-1 expression and each of the five suffixes, referenced with and without the suffix, against v<suffix> = e (conversion to the suffix type; Overflow at the conversion must be a rejection). shadow: a global CONST X, a SUB redefining X and defining Y = X op c, against the inlined form.");
     ev.set("exhaustive", !run.capped);
     ev.set("plan", json!(plan));
     ev.set("distinct_nontrivial", run.nontrivial);
